@@ -610,12 +610,58 @@ def run(report, p):
         path = g.find_path(g.entry, {g.exit.id}, avoid=work)
         r9.check(path is None, c, c.node, f"`{name}` can return without having called any worker of the package", witness=g.fmt_path(path) if path else None, construct=f"{name}: path without worker call")
 
+    # ------------------------------------------------------------------ R3.10
+    r10 = report.rule(
+        "R3.10",
+        "presence tests stay presence tests: no class of the package whose instances are tested for truth (`if x`, `not x`, `x or y`, `x and y`) defines `__len__` or `__bool__` "
+        "- otherwise an existing-but-empty object (a generation without records, an empty spec) is silently treated as absent",
+        5,
+    )
+    _unsh = unshipped_modules(p)
+    special = {}
+    for cq, c in sorted(p.classes.items()):
+        if c.module.name in _unsh:
+            continue
+        r10.instance(None, c.node, f"{cq}: defines {[m for m in ('__len__', '__bool__') if m in c.methods] or 'neither __len__ nor __bool__'}")
+        if "__len__" in c.methods or "__bool__" in c.methods:
+            special[cq] = [m for m in ("__len__", "__bool__") if m in c.methods]
+    if special:
+        fam = {}
+        for cq in special:
+            for k in [cq] + list(p.subclasses(cq)):
+                fam[k] = cq
+        for fq, f in sorted(p.funcs.items()):
+            if f.module.name in _unsh:
+                continue
+            for n in walk_no_nested(f.node):
+                cands = []
+                if isinstance(n, (ast.If, ast.While, ast.IfExp)):
+                    cands.append(n.test)
+                elif isinstance(n, ast.BoolOp):
+                    cands += list(n.values)
+                elif isinstance(n, ast.UnaryOp) and isinstance(n.op, ast.Not):
+                    cands.append(n.operand)
+                elif isinstance(n, ast.comprehension):
+                    cands += list(n.ifs)
+                for e in cands:
+                    if isinstance(e, (ast.Compare, ast.BoolOp, ast.Call, ast.Constant)) or (isinstance(e, ast.UnaryOp)):
+                        continue
+                    try:
+                        t = p.etype(e, f)
+                    except Exception:
+                        t = None
+                    if t and t[0] == "C" and t[1] in fam:
+                        base = fam[t[1]]
+                        r10.check(False, f, e, f"`{norm(e)[:50]}` is tested for truth, and its class {base.split('.')[-1]} defines {special[base]}: the test no longer means 'there is one' but 'it is not empty'", construct=f"truth test of {base.split('.')[-1]} instance: {norm(e)[:40]}")
+    r10.check(True, None, None, "")
+
     # ---- rules shared with other properties (same mechanism, same rule, reported under every property it can break)
     include_rules(report, p, 'c08', ['R8.1', 'R8.2'], 'verify/diff look recorded entries up through the same routing')
     include_rules(report, p, 'c01', ['R1.1', 'R1.2'], 'an altered file is only detected if every byte is hashed with the recorded algorithm')
     include_rules(report, p, 'c04', ['R4.1'], "create's verdict per file is the session's action decision")
     include_rules(report, p, 'c12', ['R12.1', 'R12.7'], 'ignored paths must never be reported')
     include_rules(report, p, 'c12', ['R12.5', 'R12.6'], 'gitwildmatch patterns are order-sensitive (negation): the stored list must come back in the order given, or a recorded file becomes ignored and its alteration unreported')
+    include_rules(report, p, 'c18', ['R18.6'], 'verify of an unchanged tree must not count its own folders as new files (exit 21)')
     include_rules(report, p, 'c10', ['R10.3'], 'the recorded path must be the name on disk, or an unchanged tree is reported as missing + new')
     include_rules(report, p, 'c08', ['R8.7'], 'a removed nested history folder is only noticed if the parent recorded its directory entry (with or without directory hashes)')
     report.not_decided += ["verdicts for concrete trees and mutations", "that the digest comparison detects every alteration (collision resistance)", "the wording of the output lines"]
